@@ -15,6 +15,13 @@ from harness.drivers.common import read_payload, emit
 PROG = '''
 import sys, json, builtins
 _rec = dict(argv=list(sys.argv), profile_type=type(getattr(builtins, 'profile', None)).__name__)
+# the program also uses the importable decorator: under kernprof it must not start deciding from the program's arguments
+from line_profiler import profile as _lp_profile
+@_lp_profile
+def _decorated(x):
+    return x + 1
+_decorated(1)
+_rec['argv_after_decorating'] = list(sys.argv)
 with open(%r, 'w') as _f:
     json.dump(_rec, _f)
 '''
